@@ -112,3 +112,18 @@ func (pc *PairCover) Summary() string {
 	}
 	return s
 }
+
+// TruncatingAtoMS lists the offsets v (in ms, 0 < v < maxMS) whose decimal form v/1000 is a float64 that,
+// multiplied by 1000 again, lies just below v: int(x*1000) truncates them to v-1 while math.Round gives v
+// (1.001, 1.005, 2.002, 4.004, ...). Code that converts the offset to milliseconds in two places has to
+// agree on them.
+func TruncatingAtoMS(maxMS int64) []int64 {
+	var out []int64
+	for v := int64(1); v < maxMS; v++ {
+		x := float64(v) / 1000
+		if int64(x*1000) != v {
+			out = append(out, v)
+		}
+	}
+	return out
+}
